@@ -47,11 +47,25 @@ impl Property for C06 {
         "Cases: (operand of any zoo type/length/provenance, rotation amount 0<=k<=len, direction). Enumerated: all values and all k for n<=10 (quick)/13 (thorough) on all 18 types; every (n,k) for n<=min(C,100)/200 with run-pattern values whose run of ones ends at k, at k+-1 and at a storage-word boundary. Oracle: list rotation (bit i moves to (i+k) mod n for rotl, (i-k) mod n for rotr), the stated consequences as metamorphic checks (rotl k then rotr k = identity; rotl k = rotr (n-k); popcount preserved) and the observer battery on every result. Non-trivial: n>1, 0<k<n and the value is not invariant under that rotation. Distinct by hash of the case.".into()
     }
     fn random_cases(&self, tier: Tier) -> u64 {
-        tier.pick(40_000, 400_000)
+        tier.pick(200000, 800000)
     }
     fn strategy(&self, tier: Tier) -> BoxedStrategy<C06Case> {
-        (arb_operand(tier), any::<u16>(), any::<bool>()).prop_map(|(a, f, left)| {
-            let k = frac(f, a.len() + 1);
+        (arb_operand(tier), any::<u16>(), 0usize..16, any::<bool>()).prop_map(|(a, f, sel, left)| {
+            let n = a.len();
+            let w = WORD_BITS[a.ty as usize];
+            // half uniform, half from the lattice {0, 1, w, 2w, n/2, n-w, n-1, n}
+            let k = match sel {
+                0 => 0,
+                1 => 1,
+                2 => w,
+                3 => 2 * w,
+                4 => n / 2,
+                5 => n.saturating_sub(w),
+                6 => n.saturating_sub(1),
+                7 => n,
+                _ => frac(f, n + 1),
+            }
+            .min(n);
             C06Case { a, k, left }
         }).boxed()
     }
@@ -71,6 +85,28 @@ impl Property for C06 {
                         for left in [true, false] {
                             if !f(C06Case { a: Operand::canon(t, a.clone()), k, left }) {
                                 return;
+                            }
+                        }
+                    }
+                }
+            }
+        }
+        // word-aligned lengths and amounts on vectors with spare capacity / heap-mode Bv
+        for t in [TID_D, TID_A] {
+            for prov in [Prov::Spare(64), Prov::Spare(200), Prov::LongThenTrunc(64), Prov::LongThenTrunc(200)] {
+                if !sh.mine() {
+                    continue;
+                }
+                for n in [63usize, 64, 65, 127, 128, 129, 192, 256, 320] {
+                    for k in [0usize, 1, 63, 64, 65, 128, 192, n / 2, n.saturating_sub(64), n - 1, n] {
+                        if k > n {
+                            continue;
+                        }
+                        for a in three_values(n) {
+                            for left in [true, false] {
+                                if !f(C06Case { a: Operand { ty: t, bits: a.clone(), prov: prov.clone() }, k, left }) {
+                                    return;
+                                }
                             }
                         }
                     }
